@@ -523,6 +523,36 @@ def r08_6(ctx, rep):
            "; ".join(direct[:4]) + " — the attribute is set before any modification is applied and no modification list knows about it")
 
 
+@SPEC.rule(
+    "R08.7",
+    "nothing written on a declaration is thrown away while the environment is handed down: in build_instance_tree a symbol's own "
+    "class_modification.arguments list is only appended to / extended, never reassigned, filtered or emptied — `Sub s(x(start=1, min=0))` "
+    "with an outer `s.x.start = 2` still carries min=0 (precedence is decided later, attribute by attribute, by the order of application)",
+)
+def r08_7(ctx, rep):
+    R = "R08.7"
+    fn = ctx.func(TREE, "build_instance_tree", R)
+    site = TREE + ":build_instance_tree"
+    bad = []
+    n = 0
+    for x in walk_local(fn):
+        if isinstance(x, ast.Call) and isinstance(x.func, ast.Attribute) and norm(x.func.value).endswith(".class_modification.arguments"):
+            n += 1
+            if x.func.attr in ("remove", "pop", "clear", "__delitem__"):
+                bad.append("line %d: %s" % (x.lineno, norm(x)[:70]))
+        if isinstance(x, (ast.Assign, ast.AugAssign, ast.Delete)):
+            tgts = x.targets if isinstance(x, (ast.Assign, ast.Delete)) else [x.target]
+            for t in tgts:
+                base = t.value if isinstance(t, ast.Subscript) else t
+                if norm(base).endswith(".class_modification.arguments") and not (isinstance(x, ast.AugAssign) and isinstance(x.op, ast.Add)):
+                    bad.append("line %d: %s" % (x.lineno, norm(x)[:70]))
+    if n < 2:
+        raise MechanismMissing(R, "build_instance_tree no longer extends symbols' class_modification.arguments")
+    rep.ob(R, site, "declaration modifications are only added to", not bad,
+           "%s — arguments written on the declaration are dropped before they were applied; attributes they set that the outer modification "
+           "does not mention fall back to the type's own values" % "; ".join(bad[:3]))
+
+
 # -- seeded variants ---------------------------------------------------------
 from ._mut import delete_stmt_where, replace_in_func  # noqa: E402
 
@@ -636,3 +666,15 @@ def _m_declvalue(mod):
         return False
 
     return mod if replace_in_func(mod, "ASTListener.exitDeclaration", edit) else None
+
+
+@SPEC.mutant("declaration modifications of re-modified elements pruned", TREE, "R08.7", "only added to")
+def _m_prune_decl(mod):
+    def edit(fn):
+        for n in ast.walk(fn):
+            if isinstance(n, ast.If) and norm(n.test) == "sym.class_modification" and any("extend(sym_mod.arguments)" in norm(b) for b in n.body):
+                n.body.insert(0, ast.parse("sym.class_modification.arguments = [x for x in sym.class_modification.arguments if x.redeclare]").body[0])
+                return True
+        return False
+
+    return mod if replace_in_func(mod, "build_instance_tree", edit) else None
